@@ -30,11 +30,22 @@ PROP = dict(
                    'attachSiblingsAsArgs), relocate_no_panic_WF, connect_non_named_no_panic_WF, resolve_calls_no_panic_WF (under the '
                    'hypothesis CallShape: unresolved name-or-call objects hold a []byte): from any C13.WF pool they never end in .panic '
                    '(every ObjectAt dereference, opcode-table access and detach/append contract is discharged; acyclicity from WF.rank) and '
-                   'the pool they return (ok or failed) is C13.WF with the same live slots; their fuel bound is not proved. NOT proved: that '
-                   'mergeScopeDirectives and parseDeferredBlocks never end in .panic, that any tree pass stays within its fuel, the composition into parseAML (C12.total), '
-                   'tree_WF after success/failure and print_total - these are decided per input by the oracle on the real parser and by '
+                   'the pool they return (ok or failed) is C13.WF with the same live slots; their fuel bound is not proved; (6) the resolve loop - '
+                   'merge_no_panic_WF (mergeScopeDirectives: moves the contents of every resolvable Scope directive and FREES the directive while the '
+                   'walk holds saved sibling indices) and resolve_loop_no_panic_WF (resolveLoopPasses = merge + relocate until stable): under the '
+                   'hypothesis MergeInv (C13.WF, root is a parentless scope block, every pending Scope directive is unnamed and has exactly a childless '
+                   'name-path object holding a []byte and a scope block) they never end in .panic and keep MergeInv; proved with find_avoid (Find never '
+                   'descends through an object whose name starts with a zero byte, so a merge target is never inside the directive it empties) and a '
+                   'ghost context (everything a recursive call frees or moves lies inside the subtree it visits, so saved siblings stay live); '
+                   '(7) init_resets_state ties Parser.init of a used Parser to the model (regenerated from the compiled code); (8) print_total - the '
+                   'PrettyPrint walk (model of toString panic sites, cross-checked against the real PrettyPrint on every input) over ANY C13.WF pool '
+                   'with correctly typed values returns normally within (size+2)^2 frames; (9) shape_checks_sound - the hypotheses MergeInv and CallShape '
+                   'are evaluated by the replay oracle on the model run of EVERY input (clause shape-hypothesis) and the executable checks imply them; '
+                   'tree_passes_no_panic_WF composes connectNamedObjArgs and the resolve loop as ParseAML runs them. NOT proved: that '
+                   'parseDeferredBlocks never ends in .panic, that the first pass establishes the shape hypotheses (MergeInv, CallShape) of the later passes, that any tree pass stays within its fuel, the composition into parseAML (C12.total), '
+                   'tree_WF after success/failure of the whole ParseAML - these are decided per input by the oracle on the real parser and by '
                    'model-vs-implementation correspondence over the boundary list and the mutational stream.',
-        level_note='Partial: totality (no panic, no stack overflow, no hang) and tree well-formedness are theorems for the first pass (first_pass_total, first_pass_WF; any well-formed pool); four tree passes are proved panic-free and WF-preserving without their fuel bound; mergeScopeDirectives, parseDeferredBlocks and the composition are NOT theorems; '
+        level_note='Partial: totality (no panic, no stack overflow, no hang) and tree well-formedness are theorems for the first pass (first_pass_total, first_pass_WF; any well-formed pool); every tree pass except parseDeferredBlocks is proved panic-free and WF-preserving (some under explicit shape hypotheses, none with its fuel bound); parseDeferredBlocks and the composition into parseAML are NOT theorems; '
                    'they need the object-tree invariant of C13 with state-dependent operation contracts threaded through ~25 call sites '
                    'and are covered by differential testing of a faithful executable Lean port (0 mismatches on 10^5-10^6 inputs incl. '
                    'the 3577-object DSDT tree) plus the property oracle on the real code (outcome in {ok, parse error}; stored []byte '
